@@ -81,7 +81,11 @@ func nthPerm(items []int, no int) []int {
 	return out
 }
 
-func c03Run(run *vfRun, c c03Case) {
+func c03Run(run *vfRun, c c03Case) { c03RunMode(run, c, "c03") }
+
+// c03RunMode: mode "c03" arms the counting oracle; mode "c01" runs the same chosen-arrival-order workload (incl. the
+// schedule in which a node sees round r+1's partials before round r's) with the signature-verification oracle of C01.
+func c03RunMode(run *vfRun, c c03Case, mode string) {
 	sch, _ := crypto.SchemeFromName(c.Scheme)
 	cfg := vfbConfig{Scheme: sch, N: c.N, Thr: c.Thr, Period: 2 * time.Second, Catchup: time.Second, Backend: c.Backend, BeaconID: "c03",
 		GenesisIn: 2 * time.Second, ManualNet: true, Seed: c.Seed}
@@ -115,6 +119,19 @@ func c03Run(run *vfRun, c c03Case) {
 			return
 		}
 		run.Count("aggregation_puts", 1)
+		if mode == "c01" {
+			omu.Lock()
+			puts++
+			minD = 0
+			omu.Unlock()
+			if err := nt.verifyBeacon(b); err != nil {
+				run.Violation(fmt.Sprintf("C01/unverifiable-beacon-stored/%s/%s", src, nt.backendOf(n)),
+					fmt.Sprintf("node %d stored round %d (via %s, chosen arrival order) that does not verify under the group key: %v", n.pos, b.Round, src, err), info)
+			} else {
+				run.Count("stored_beacons_verified", 1)
+			}
+			return
+		}
 		D := map[int]bool{n.pos: true} // own partial is credited unconditionally (enqueued before any tap can see it)
 		for _, e := range nt.eventsCopy() {
 			if e.Seq >= seq {
@@ -365,6 +382,30 @@ func TestVF_C03(t *testing.T) {
 				run.Sample(c)
 			}
 			c03Run(run, c)
+		}(idx)
+	}
+	wg.Wait()
+}
+
+// C01 on the manual network: same workload, signature oracle.
+func TestVF_C01_Manual(t *testing.T) {
+	run := vfNewRun("C01", "beaconnet-manual")
+	defer run.Finish()
+	n := vfPick(72, 600)
+	var wg sync.WaitGroup
+	sem := make(chan struct{}, 8)
+	for idx := 0; idx < n; idx++ {
+		wg.Add(1)
+		sem <- struct{}{}
+		go func(idx int) {
+			defer wg.Done()
+			defer func() { <-sem }()
+			c := c03Gen(idx)
+			c.Withhold = idx%2 == 0 // half of the cases keep one round back from one node
+			if idx == 0 {
+				run.Sample(c)
+			}
+			c03RunMode(run, c, "c01")
 		}(idx)
 	}
 	wg.Wait()
